@@ -145,6 +145,35 @@ func (m *CPU) Run(app risc.Application) (int, error) {
 
 		if ret {
 			log.Info(m.ctx, "\t🛑 Return")
+			// Complete the instructions older than the return that are still in an
+			// execute unit (a cache-missing load, for instance) before ending the run
+			for {
+				busy := false
+				for _, eu := range m.executeUnits {
+					if !eu.isEmpty() || eu.isPendingMessages() {
+						busy = true
+					}
+				}
+				if !busy {
+					break
+				}
+				m.ctx.VerifTick()
+				cycle++
+				m.writeBus.Connect(cycle)
+				for _, cc := range m.cacheControllers {
+					cc.snoop.Cycle(struct{}{})
+				}
+				for _, eu := range m.executeUnits {
+					if !eu.isEmpty() || eu.isPendingMessages() {
+						if resp := eu.Cycle(euReq{cycle, app}); resp.err != nil {
+							return 0, resp.err
+						}
+					}
+				}
+				for _, wu := range m.writeUnits {
+					_ = wu.Cycle(wuReq{-1})
+				}
+			}
 			cycle++
 			m.writeBus.Connect(cycle)
 			for !m.areWriteUnitsEmpty() || !m.writeBus.IsEmpty() {
